@@ -161,11 +161,12 @@ def random_history(rnd, nsessions):
     return hist
 
 
-def run_history(root, hist, fmt="fb", eps=2, real_processes=False):
+def run_history(root, hist, fmt="fb", eps=2, real_processes=False,
+                hashes=("sha256",)):
     """Runs the sessions; after each one audits the tree.  Returns
     (problems, session index) of the first failing session or ([], None)."""
     from sedpack.io import Dataset
-    d = C.mk_dataset(root, fmt, "", eps=eps)
+    d = C.mk_dataset(root, fmt, "", eps=eps, hashes=hashes)
     expected = collections.defaultdict(list)
     pending = {}
     nxt = [0]
@@ -245,6 +246,16 @@ def run_history(root, hist, fmt="fb", eps=2, real_processes=False):
         except Exception as e:  # noqa: BLE001
             return [f"session raised {e!r}"[:300]], k
         problems = audit_tree(root, d, expected)
+        # the handle that was kept (and has iterated before) delivers what a
+        # fresh open delivers
+        for sp in expected:
+            try:
+                kept = sorted(C.iterate(d, "numpy", sp))
+            except Exception as e:  # noqa: BLE001
+                kept = repr(e)[:120]
+            if expected[sp] and kept != sorted(expected[sp]):
+                problems.append(f"{sp}: the kept handle delivers {kept}, "
+                                f"written so far {sorted(expected[sp])}")
         try:
             Dataset(root).check(show_progressbar=False)
         except Exception as e:  # noqa: BLE001
@@ -318,9 +329,13 @@ def check_histories(ctx):
             fmt = "fb" if tier == "quick" or hi % 3 == 0 else \
                 ("npz" if hi % 3 == 1 else "tfrec")
             n_eval += len(h)
-            problems, k = run_history(tmp / f"h{hi}", h, fmt)
+            # every other history without recorded checksums (legal, and
+            # then nothing but the file content tells two versions apart)
+            hashes = () if hi % 2 else ("sha256",)
+            problems, k = run_history(tmp / f"h{hi}", h, fmt, hashes=hashes)
             if problems:
                 bad = dict(history=h, failing_session=k, format=fmt,
+                           hash_checksum_algorithms=list(hashes),
                            problems=problems[:6])
                 break
         if bad is None and tier != "quick":
@@ -412,7 +427,11 @@ def _committed_dataset(root, hashes, fmt="fb"):
     C.fill(d, range(20, 23), "test")
     old_list = (root / "train" / "shards_list.json").read_bytes()
     C.fill(d, range(30, 32), "train")
+    _WRITING_HANDLE[str(root)] = d
     return Dataset(root), old_list
+
+
+_WRITING_HANDLE = {}
 
 
 def check_integrity(ctx):
@@ -514,16 +533,23 @@ def check_integrity(ctx):
             b = bytearray(orig)
             b[len(b) // 2] ^= 4
             for name, content in (("flip", bytes(b)), ("extend", orig + b" ")):
-                n_eval += 1
-                desc.write_bytes(content)
-                try:
-                    Dataset(root).check(show_progressbar=False,
-                                        hash_checksums_values=expected_desc)
-                    undetected.append(dict(algs=algs, file="dataset_info.json",
-                                           modification=name))
-                except Exception:  # noqa: BLE001
-                    pass
-                desc.write_bytes(orig)
+                # asked of a fresh handle and of the handle that wrote the
+                # dataset (which must not answer from memory)
+                for who, handle in (("fresh handle", None),
+                                    ("the writing handle",
+                                     _WRITING_HANDLE[str(root)])):
+                    n_eval += 1
+                    desc.write_bytes(content)
+                    try:
+                        (handle or Dataset(root)).check(
+                            show_progressbar=False,
+                            hash_checksums_values=expected_desc)
+                        undetected.append(dict(
+                            algs=algs, file="dataset_info.json",
+                            modification=name + ", checked through " + who))
+                    except Exception:  # noqa: BLE001
+                        pass
+                    desc.write_bytes(orig)
         if undetected and tier == "quick":
             break
     out = [C.result("check() passes on a committed nested dataset",
@@ -670,11 +696,18 @@ def check_crash(ctx):
         for scenario in ("filler", "subdir", "multi"):
             with C.tmpdir() as tmp:
                 root = tmp / "ds"
+                # both runs seed the stdlib / numpy generators the same way
+                # (reproducible training scripts do): what protects committed
+                # shards from being overwritten must not depend on them
+                random.seed(20240229)
+                np.random.seed(20240229)
                 d = C.mk_dataset(root, fmt, "", eps=2)
                 C.fill(d, range(0, 5), "train")
                 C.fill(d, range(10, 12), "test")
                 if scenario != "filler":
                     C.fill(d, range(20, 23), "train", rel="sub")
+                random.seed(20240229)
+                np.random.seed(20240229)
                 committed = {"train": list(range(5)) + (
                     [20, 21, 22] if scenario != "filler" else []),
                     "test": [10, 11]}
@@ -733,6 +766,20 @@ def _tag_feed(filler, groups, delay, tag, chdir_to=None):
                 time.sleep(delay)
                 f.write_example(values=C.example(i), split=split)
     return tag
+
+
+def _failing_feed(filler, groups, fail_after):
+    """writes, then raises inside the filler's context after fail_after
+    examples (None: never)"""
+    n = 0
+    with filler as f:
+        for split, ids in groups.items():
+            for i in ids:
+                if fail_after is not None and n >= fail_after:
+                    raise RuntimeError("writer gives up")
+                f.write_example(values=C.example(i), split=split)
+                n += 1
+    return n
 
 
 def check_parallel_writers(ctx):
@@ -844,6 +891,62 @@ def check_parallel_writers(ctx):
                     os.chdir(cwd)
                 if problems:
                     bad = dict(case=case, problems=problems[:5])
+                    break
+    # a writer that fails: the call fails, the dataset keeps exactly what it
+    # had (nothing of the failed call is registered, by no process), and a
+    # retry through the same handle adds exactly the retry's examples
+    if bad is None:
+        for sp_ in (False, True):
+            n_eval += 1
+            with C.tmpdir() as tmp:
+                root = tmp / "par"
+                d = C.mk_dataset(root, "fb", "", eps=2)
+                C.fill(d, [900, 901, 902], "train")
+                C.fill(d, [950], "test")
+                before = {p: p.read_bytes() for p in root.rglob("*.json")}
+                problems = []
+                try:
+                    d.write_multiprocessing(
+                        feed_writer=_failing_feed,
+                        custom_arguments=[({"train": [1, 2, 3, 4, 5]}, None),
+                                          ({"train": [10, 11, 12, 13],
+                                            "test": [14, 15, 16]}, 5),
+                                          ({"test": [20, 21, 22]}, 3)],
+                        single_process=sp_, consistency_check=False)
+                    problems.append("the call returned normally although two "
+                                    "writers raised")
+                except RuntimeError:
+                    pass
+                except Exception as e:  # noqa: BLE001
+                    problems.append("unexpected failure: " + repr(e)[:200])
+                changed = [str(p.relative_to(root)) for p, b in before.items()
+                           if not p.exists() or p.read_bytes() != b]
+                if changed:
+                    problems.append(f"metadata of the dataset rewritten by the "
+                                    f"failed call: {changed[:4]}")
+                try:
+                    got = {sp: C.iterate(Dataset(root), "numpy", sp)
+                           for sp in ("train", "test")}
+                    if got != {"train": [900, 901, 902], "test": [950]}:
+                        problems.append(f"content after the failed call: {got}")
+                    res = d.write_multiprocessing(
+                        feed_writer=_failing_feed,
+                        custom_arguments=[({"train": [30, 31, 32]}, None),
+                                          ({"test": [40, 41]}, None)],
+                        single_process=sp_, consistency_check=True)
+                    got = {sp: sorted(C.iterate(Dataset(root), "numpy", sp))
+                           for sp in ("train", "test")}
+                    if res != [3, 2] or got != {
+                            "train": [30, 31, 32, 900, 901, 902],
+                            "test": [40, 41, 950]}:
+                        problems.append(f"after the retry: results {res}, "
+                                        f"content {got}")
+                except Exception as e:  # noqa: BLE001
+                    problems.append("retry failed: " + repr(e)[:200])
+                if problems:
+                    bad = dict(case="a writer raises inside its filler (" + (
+                        "single process" if sp_ else "worker processes") + ")",
+                        problems=problems[:5])
                     break
     return [C.result(
         "write_multiprocessing with real processes of different speeds == the "
@@ -1087,6 +1190,32 @@ def check_paths(ctx):
                 bad = dict(what="ShardsList accepted", path=h)
             except Exception:  # noqa: BLE001
                 pass
+        # (1b) the verdict does not depend on the working directory
+        if not bad:
+            cwd0 = os.getcwd()
+            work = tmp / "work"
+            work.mkdir()
+            shutil.copy(shard, work / "secret.fb")
+            try:
+                for wd in (Path("/"), work, tmp, root):
+                    os.chdir(wd)
+                    for h in ["../outside/secret.fb", "../work/secret.fb",
+                              "train/../../work/secret.fb",
+                              "train/../../outside/secret.fb",
+                              "a/../../dataset_v2/x.fb"]:
+                        n_eval += 1
+                        try:
+                            FileInfo(file_path=Path(h))
+                            bad = dict(what="FileInfo accepted", path=h,
+                                       working_directory=str(wd).replace(
+                                           str(tmp), "<tmp>"))
+                            break
+                        except Exception:  # noqa: BLE001
+                            pass
+                    if bad:
+                        break
+            finally:
+                os.chdir(cwd0)
         # (2) tampered metadata: opening / iterating / checking must not read
         # outside the root
         opened = []
